@@ -24,18 +24,18 @@ FINDINGS = os.path.join(ROOT, "known_findings.json")
 
 # (runs, ops per run, workers) per tier
 TIERS = {
-    "C01": {"quick": (96, 10, 16), "thorough": (4000, 24, 16)},
-    "C16": {"quick": (128, 14, 16), "thorough": (6000, 30, 16)},
+    "C01": {"quick": (96, 10, 16), "thorough": (1500, 20, 16)},
+    "C16": {"quick": (128, 14, 16), "thorough": (2500, 24, 16)},
     # C14: 98 (class, parameter) pairs; index // 98 = variant: 0,1 enumerate the catalogue on a full model, >= 2
     # place catalogue faults at random points of seeded histories (nops applies to history mode only)
-    "C14": {"quick": (98 * 2 + 60, 400, 16), "thorough": (98 * 2 + 3000, 400, 16)},
-    "C15": {"quick": (128, 14, 16), "thorough": (5000, 30, 16)},
-    "C05": {"quick": (128, 10, 16), "thorough": (5000, 24, 16)},
-    "C13": {"quick": (128, 10, 16), "thorough": (5000, 24, 16)},
-    "C18": {"quick": (128, 10, 16), "thorough": (5000, 24, 16)},
-    "C19": {"quick": (64, 8, 16), "thorough": (1500, 20, 16)},
-    "C07": {"quick": (64, 8, 16), "thorough": (2000, 20, 16)},
-    "C08": {"quick": (96, 10, 16), "thorough": (4000, 24, 16)},
+    "C14": {"quick": (98 * 2 + 60, 400, 16), "thorough": (98 * 2 + 1000, 400, 16)},
+    "C15": {"quick": (128, 14, 16), "thorough": (2000, 24, 16)},
+    "C05": {"quick": (128, 10, 16), "thorough": (2000, 20, 16)},
+    "C13": {"quick": (128, 10, 16), "thorough": (2000, 20, 16)},
+    "C18": {"quick": (128, 10, 16), "thorough": (2000, 20, 16)},
+    "C19": {"quick": (64, 8, 16), "thorough": (600, 16, 16)},
+    "C07": {"quick": (64, 8, 16), "thorough": (800, 16, 16)},
+    "C08": {"quick": (96, 10, 16), "thorough": (1500, 20, 16)},
 }
 # C19 additionally re-executes its first CROSS_PROCESS runs in a second set of interpreters started with other
 # PYTHONHASHSEED values and compares the shipped final values (the "different processes" clause)
